@@ -450,3 +450,215 @@ Proof.
     rewrite (delegated_same_del (w_env w) e1 A_hub Hdel1). lia.
   - rewrite P1, P2, G3 in *. rewrite Tsup in Q3. rewrite Tss in Q4. repeat split; assumption.
 Qed.
+
+(** ** C04 at transaction level for the conversions *)
+Theorem convert_b_st_tx_rate_mono w user amount funds w' tr s s' :
+  Wired w -> EntWf w -> SoundRates w ->
+  run tx_fuel w [(user, MWasm A_bsei (WCw20 (CSend A_hub amount HkConvert)) funds)] [] = Some (w', tr) ->
+  hub_query_state w A_hub = Some s -> hub_query_state w' A_hub = Some s' ->
+  (0 < w_claims_b w' -> hs_ber s <= hs_ber s') /\
+  hs_ser s <= hs_ser s' /\ 0 < w_claims_st w' /\
+  Backed (hs_bb s') (w_claims_b w') /\ Backed (hs_bst s') (w_claims_st w') /\
+  hs_ber s' = rate_of (hs_bb s') (w_claims_b w') /\ hs_ser s' = rate_of (hs_bst s') (w_claims_st w').
+Proof.
+  intros HW HE HS H Hq Hq'.
+  destruct (Wired_inv _ HW) as (h & r & dp & g & tb & ts & Hh & _ & _ & _ & Hb & Hs & _).
+  destruct (convert_b_st_tx_effect w user amount funds w' tr h tb ts HW HE Hh Hb Hs H)
+    as (s0 & h' & tb' & ts' & Hq0 & Hser & E).
+  cbv zeta in E. rewrite Hq in Hq0. inversion Hq0; subst s0; clear Hq0.
+  set (fee := conv_bst_fee h s (tk_supply tb) amount) in *.
+  set (d := (amount - fee) * hs_ber s / D) in *.
+  set (m := d * D / hs_ser s) in *.
+  destruct E as (Hm & Hfee & Hdle & _ & Hh' & Hb' & Hs' & Tb & _ & _ & Ts & _ & _ & _ & _ & Hbt & _ & _ & _ & _ & Hrep).
+  destruct (Hrep s' Hq') as (Q1 & Q2 & Q3 & Q4).
+  destruct (HS s Hq) as [[Rb Lb] [Rs Ls]].
+  rewrite (rt_claims_b w h tb Hh Hb) in Lb. rewrite (rt_claims_st w h ts Hh Hs) in Ls.
+  rewrite (rt_claims_b w' h' tb' Hh' Hb'), (rt_claims_st w' h' ts' Hh' Hs'), Hbt, Ts.
+  assert (Tb' : tk_supply tb' = tk_supply tb - amount) by lia. rewrite Tb'.
+  rewrite Q1, Q2, Q3, Q4.
+  assert (Hd : d * D <= (amount - fee) * hs_ber s) by apply div_mul_le_l.
+  assert (Hmr : m * hs_ser s <= d * D) by apply div_mul_le_l.
+  assert (Hk2 : hs_ser s * (tk_supply ts + m + cb_reqst (h_batch h)) <= (hs_bst s + d) * D)
+    by (clearbody m d; lia).
+  assert (Hk1 : hs_ber s * (tk_supply tb - amount + cb_reqb (h_batch h)) <= (hs_bb s - d) * D).
+  { pose proof (arith_redeem (hs_ber s) (hs_bb s) (tk_supply tb + cb_reqb (h_batch h)) amount
+                  (amount - fee) d Lb) as K.
+    replace (tk_supply tb + cb_reqb (h_batch h) - amount) with (tk_supply tb - amount + cb_reqb (h_batch h)) in K by lia.
+    apply K; [lia|lia|exact Hd|exact Hdle]. }
+  destruct (rate_step _ _ _ Rb Hk1) as [Kb Kr]. destruct (rate_step _ _ _ Rs Hk2) as [Kb' Kr'].
+  split; [exact Kr|]. split; [apply Kr'; lia|]. split; [lia|]. repeat split; assumption.
+Qed.
+
+Theorem convert_st_b_tx_rate_mono w user amount funds w' tr s s' :
+  Wired w -> EntWf w -> SoundRates w ->
+  run tx_fuel w [(user, MWasm A_stsei (WCw20 (CSend A_hub amount HkConvert)) funds)] [] = Some (w', tr) ->
+  hub_query_state w A_hub = Some s -> hub_query_state w' A_hub = Some s' ->
+  hs_ber s <= hs_ber s' /\ 0 < w_claims_b w' /\
+  (0 < w_claims_st w' -> hs_ser s <= hs_ser s') /\
+  Backed (hs_bb s') (w_claims_b w') /\ Backed (hs_bst s') (w_claims_st w') /\
+  hs_ber s' = rate_of (hs_bb s') (w_claims_b w') /\ hs_ser s' = rate_of (hs_bst s') (w_claims_st w').
+Proof.
+  intros HW HE HS H Hq Hq'.
+  destruct (Wired_inv _ HW) as (h & r & dp & g & tb & ts & Hh & _ & _ & _ & Hb & Hs & _).
+  destruct (convert_st_b_tx_effect w user amount funds w' tr h tb ts HW HE Hh Hb Hs H)
+    as (s0 & h' & tb' & ts' & Hq0 & Hber & E).
+  cbv zeta in E. rewrite Hq in Hq0. inversion Hq0; subst s0; clear Hq0.
+  set (d := amount * hs_ser s / D) in *.
+  set (m0 := d * D / hs_ber s) in *.
+  set (fee := conv_stb_fee h s (tk_supply tb) d m0) in *.
+  destruct E as (Hm & Hfee & Hdle & _ & Hh' & Hb' & Hs' & Ts & _ & _ & Tb & _ & _ & _ & _ & Hbt & _ & _ & _ & _ & Hrep).
+  destruct (Hrep s' Hq') as (Q1 & Q2 & Q3 & Q4).
+  destruct (HS s Hq) as [[Rb Lb] [Rs Ls]].
+  rewrite (rt_claims_b w h tb Hh Hb) in Lb. rewrite (rt_claims_st w h ts Hh Hs) in Ls.
+  rewrite (rt_claims_b w' h' tb' Hh' Hb'), (rt_claims_st w' h' ts' Hh' Hs'), Hbt, Tb.
+  assert (Ts' : tk_supply ts' = tk_supply ts - amount) by lia. rewrite Ts'.
+  rewrite Q1, Q2, Q3, Q4.
+  assert (Hd : d * D <= amount * hs_ser s) by apply div_mul_le_l.
+  assert (Hmr : (m0 - fee) * hs_ber s <= d * D) by apply round_mint.
+  set (m := m0 - fee) in *.
+  assert (Hk1 : hs_ber s * (tk_supply tb + m + cb_reqb (h_batch h)) <= (hs_bb s + d) * D)
+    by (clearbody m d; lia).
+  assert (Hk2 : hs_ser s * (tk_supply ts - amount + cb_reqst (h_batch h)) <= (hs_bst s - d) * D).
+  { pose proof (arith_redeem (hs_ser s) (hs_bst s) (tk_supply ts + cb_reqst (h_batch h)) amount
+                  amount d Ls (N.le_refl _)) as K.
+    replace (tk_supply ts + cb_reqst (h_batch h) - amount) with (tk_supply ts - amount + cb_reqst (h_batch h)) in K by lia.
+    apply K; [lia|exact Hd|exact Hdle]. }
+  destruct (rate_step _ _ _ Rb Hk1) as [Kb Kr]. destruct (rate_step _ _ _ Rs Hk2) as [Kb' Kr'].
+  split; [apply Kr; lia|]. split; [lia|]. split; [exact Kr'|]. repeat split; assumption.
+Qed.
+
+(** the invariants are re-established by a conversion *)
+Theorem convert_tx_invariants w user tok amount funds w' tr :
+  Wired w -> EntWf w -> SoundRates w -> tok = A_bsei \/ tok = A_stsei ->
+  run tx_fuel w [(user, MWasm tok (WCw20 (CSend A_hub amount HkConvert)) funds)] [] = Some (w', tr) ->
+  Wired w' /\ EntWf w' /\ RatesExact w' /\ BackedW w' /\
+  (w_claims_b w' <= LIM -> w_claims_st w' <= LIM -> SoundRates w').
+Proof.
+  intros HW HE HS Hk H.
+  assert (HW' : Wired w').
+  { eapply Wired_wdata; [|exact HW]. eapply tx_wdata; [|exact H]. reflexivity. }
+  assert (HE' : EntWf w') by (eapply tx_entwf; eauto).
+  assert (HXB : RatesExact w' /\ BackedW w').
+  { destruct (Wired_inv _ HW) as (h & r & d & g & tb & ts & Hh & _ & _ & _ & Hb & Hs & _).
+    destruct (hub_query_state w A_hub) as [s|] eqn:Hq.
+    - split; intros s' Hq'; destruct Hk as [-> | ->].
+      + destruct (convert_b_st_tx_rate_mono w user amount funds w' tr s s' HW HE HS H Hq Hq') as (_ & _ & _ & A & B & C & E). auto.
+      + destruct (convert_st_b_tx_rate_mono w user amount funds w' tr s s' HW HE HS H Hq Hq') as (_ & _ & _ & A & B & C & E). auto.
+      + destruct (convert_b_st_tx_rate_mono w user amount funds w' tr s s' HW HE HS H Hq Hq') as (_ & _ & _ & A & B & C & E). auto.
+      + destruct (convert_st_b_tx_rate_mono w user amount funds w' tr s s' HW HE HS H Hq Hq') as (_ & _ & _ & A & B & C & E). auto.
+    - exfalso. destruct Hk as [-> | ->].
+      + destruct (convert_b_st_tx_effect w user amount funds w' tr h tb ts HW HE Hh Hb Hs H) as (s0 & h' & tb' & ts' & Hq0 & _).
+        congruence.
+      + destruct (convert_st_b_tx_effect w user amount funds w' tr h tb ts HW HE Hh Hb Hs H) as (s0 & h' & tb' & ts' & Hq0 & _).
+        congruence. }
+  destruct HXB as [HX HB].
+  split; [exact HW'|]. split; [exact HE'|]. split; [exact HX|]. split; [exact HB|].
+  intros L1 L2. apply rt_sound_of_exact; assumption.
+Qed.
+
+(** history-level: one Convert operation, successful or not *)
+Theorem rate_monotone_step_convert w user tok amount funds s s' :
+  Wired w -> EntWf w -> SoundRates w -> tok = A_bsei \/ tok = A_stsei ->
+  let w' := fst (step w (OTx user tok (WCw20 (CSend A_hub amount HkConvert)) funds)) in
+  hub_query_state w A_hub = Some s -> hub_query_state w' A_hub = Some s' ->
+  (0 < w_claims_b w' -> hs_ber s <= hs_ber s') /\ (0 < w_claims_st w' -> hs_ser s <= hs_ser s').
+Proof.
+  intros HW HE HS Hk w' Hq Hq'. subst w'.
+  destruct (step_tx_cases w user tok (WCw20 (CSend A_hub amount HkConvert)) funds) as [E | (w1 & tr & Hrun & E)];
+    rewrite E in *.
+  - rewrite Hq in Hq'. inversion Hq'; subst s'. split; intros _; lia.
+  - destruct Hk as [-> | ->].
+    + destruct (convert_b_st_tx_rate_mono w user amount funds w1 tr s s' HW HE HS Hrun Hq Hq') as (A & B & _). auto.
+    + destruct (convert_st_b_tx_rate_mono w user amount funds w1 tr s s' HW HE HS Hrun Hq Hq') as (A & _ & B & _). auto.
+Qed.
+
+Lemma def_conv_bst_fee : forall h s sb amount, conv_bst_fee h s sb amount =
+  if hs_ber s <? hp_thr (h_params h)
+  then N.min (amount * hp_pegfee (h_params h) / D)
+             (if hs_bb s =? 0 then sb + cb_reqb (h_batch h) - hs_bb s
+              else (sb + cb_reqb (h_batch h) - hs_bb s) * (sb + cb_reqb (h_batch h) - amount) / hs_bb s)
+  else 0.
+Proof. reflexivity. Qed.
+
+Lemma def_conv_stb_fee : forall h s sb d m0, conv_stb_fee h s sb d m0 =
+  if hs_ber s <? hp_thr (h_params h)
+  then N.min (m0 * hp_pegfee (h_params h) / D) (sb + m0 + cb_reqb (h_batch h) - (hs_bb s + d))
+  else 0.
+Proof. reflexivity. Qed.
+
+Theorem rate_step_invariants_convert w user tok amount funds :
+  Wired w -> EntWf w -> SoundRates w -> tok = A_bsei \/ tok = A_stsei ->
+  let w' := fst (step w (OTx user tok (WCw20 (CSend A_hub amount HkConvert)) funds)) in
+  Wired w' /\ EntWf w' /\ (w_claims_b w' <= LIM -> w_claims_st w' <= LIM -> SoundRates w').
+Proof.
+  intros HW HE HS Hk w'. subst w'.
+  destruct (step_tx_cases w user tok (WCw20 (CSend A_hub amount HkConvert)) funds) as [E | (w1 & tr & Hrun & E)];
+    rewrite E.
+  - auto.
+  - destruct (convert_tx_invariants w user tok amount funds w1 tr HW HE HS Hk Hrun) as (A & B & _ & _ & C). auto.
+Qed.
+
+(** ** histories of Bond / BondForStSei / Convert operations *)
+Definition rate_op (o : op) : Prop :=
+  (exists user hm funds, o = OTx user A_hub (WHub hm) funds /\ (hm = HBond \/ hm = HBondSt)) \/
+  (exists user tok amount funds,
+     o = OTx user tok (WCw20 (CSend A_hub amount HkConvert)) funds /\ (tok = A_bsei \/ tok = A_stsei)).
+
+(** within E1 the State query answers *)
+Lemma rt_query_some w : Wired w -> RateE1 w -> exists s, hub_query_state w A_hub = Some s.
+Proof.
+  intros HW HE.
+  destruct (Wired_inv _ HW) as (h & r & d & g & tb & ts & Hh & _ & _ & _ & Hb & Hs & _ & _ & Wb & Ws & Wu & _).
+  destruct (rt_E1_inv w h tb ts HE Hh Hb Hs) as (E1 & E2 & E3 & E4 & _).
+  destruct (qas_ok w A_hub h tb ts Wu Wb Ws Hb Hs E1 E2 E3 E4) as (s & Hq & _).
+  exists s. unfold hub_query_state. rewrite Hh. exact Hq.
+Qed.
+
+Lemma rt_E1_claims w : Wired w -> RateE1 w -> w_claims_b w <= LIM /\ w_claims_st w <= LIM.
+Proof.
+  intros HW HE.
+  destruct (Wired_inv _ HW) as (h & r & d & g & tb & ts & Hh & _ & _ & _ & Hb & Hs & _).
+  destruct (rt_E1_inv w h tb ts HE Hh Hb Hs) as (_ & _ & E3 & E4 & _).
+  unfold w_claims_b, w_claims_st. rewrite Hh, Hb, Hs. auto.
+Qed.
+
+(** the envelope along a history: E1 and both tokens in circulation in every visited world *)
+Definition RateEnv (w : world) : Prop := RateE1 w /\ 0 < w_claims_b w /\ 0 < w_claims_st w.
+
+Theorem rate_monotone_history : forall ops w s s',
+  Forall rate_op ops -> Wired w -> EntWf w -> SoundRates w -> always RateEnv ops w ->
+  hub_query_state w A_hub = Some s -> hub_query_state (run_ops ops w) A_hub = Some s' ->
+  hs_ber s <= hs_ber s' /\ hs_ser s <= hs_ser s'.
+Proof.
+  induction ops as [|o ops IH]; intros w s s' Hops HW HE HS HA Hq Hq'.
+  - cbn [run_ops fold_left] in Hq'. rewrite Hq in Hq'. inversion Hq'; subst. split; lia.
+  - apply Forall_cons_iff in Hops. destruct Hops as [Ho Hops].
+    cbn [always] in HA. destruct HA as [_ HA]. pose proof (always_head _ _ _ HA) as (HE1 & Hcb & Hcs).
+    change (run_ops (o :: ops) w) with (run_ops ops (fst (step w o))) in Hq'.
+    set (w1 := fst (step w o)) in *.
+    assert (Hstep : Wired w1 /\ EntWf w1 /\ (w_claims_b w1 <= LIM -> w_claims_st w1 <= LIM -> SoundRates w1) /\
+                    forall s1, hub_query_state w1 A_hub = Some s1 ->
+                      (0 < w_claims_b w1 -> hs_ber s <= hs_ber s1) /\ (0 < w_claims_st w1 -> hs_ser s <= hs_ser s1)).
+    { destruct Ho as [(user & hm & funds & -> & Hk) | (user & tok & amount & funds & -> & Hk)].
+      - destruct (rate_step_invariants w user hm funds HW HE HS Hk) as (A & B & C).
+        split; [exact A|]. split; [exact B|]. split; [exact C|].
+        intros s1 Hq1. exact (rate_monotone_step w user hm funds s s1 HW HE HS Hk Hq Hq1).
+      - destruct (rate_step_invariants_convert w user tok amount funds HW HE HS Hk) as (A & B & C).
+        split; [exact A|]. split; [exact B|]. split; [exact C|].
+        intros s1 Hq1. exact (rate_monotone_step_convert w user tok amount funds s s1 HW HE HS Hk Hq Hq1). }
+    destruct Hstep as (HW1 & HEnt1 & HS1 & Hmono).
+    destruct (rt_E1_claims w1 HW1 HE1) as [L1 L2].
+    destruct (rt_query_some w1 HW1 HE1) as [s1 Hq1].
+    destruct (Hmono s1 Hq1) as [M1 M2].
+    destruct (IH w1 s1 s' Hops HW1 HEnt1 (HS1 L1 L2) HA Hq1 Hq') as [I1 I2].
+    split; [specialize (M1 Hcb) | specialize (M2 Hcs)]; lia.
+Qed.
+
+Lemma def_rate_op : forall o, rate_op o <->
+  (exists user hm funds, o = OTx user A_hub (WHub hm) funds /\ (hm = HBond \/ hm = HBondSt)) \/
+  (exists user tok amount funds,
+     o = OTx user tok (WCw20 (CSend A_hub amount HkConvert)) funds /\ (tok = A_bsei \/ tok = A_stsei)).
+Proof. intros o. reflexivity. Qed.
+
+Lemma def_RateEnv : forall w, RateEnv w <-> RateE1 w /\ 0 < w_claims_b w /\ 0 < w_claims_st w.
+Proof. intros w. reflexivity. Qed.
